@@ -129,8 +129,13 @@ def check_texts(texts):
 def check_markdown(doc):
     try:
         compile_markdown(doc)
-    except (ParseError, RecipeCompileError):
-        pass
+    except (ParseError, RecipeCompileError) as e:
+        lines = doc.splitlines() or [""]     # the tool counts lines the way str.splitlines does
+        snippet = e.snippet.strip()
+        if not (1 <= e.line <= len(lines)) or (snippet and snippet not in lines[e.line - 1]) or (not snippet and lines[e.line - 1].strip(" \t>-") not in ("", "```", "~~~")
+                                                                                        and not lines[e.line - 1].strip().startswith(("```", "~~~"))):
+            return [("C07:markdown-error-names-one-line-quotes-another", "line %r quoted %r, document line is %r" % (
+                e.line, e.snippet, lines[e.line - 1] if 1 <= e.line <= len(lines) else None))]
     except RecursionError:
         return [(classify_exception("RecursionError", [doc]), "markdown %r" % doc[:200])]
     except Exception as e:  # noqa
@@ -199,6 +204,7 @@ def oracle(run):
         body = "\n".join(t)
         docs.append("# Title for 3\n\nSome {2} text.\n\n" + "\n".join("    " + l for l in body.split("\n")) + "\n")
         docs.append("Intro\n\n```recipe\n" + body + "\n```\n\n{1 1/2} x\n")
+        docs.append("# T\n\n```new-recipe\nfine = 1 x\n```\n\ntext\n\n~~~new-recipe\n" + body + "\n~~~\n")
     for doc in docs:
         run.case(("oracle-md", doc), True, kind="markdown")
         for sig, detail in check_markdown(doc):
